@@ -96,16 +96,33 @@ def y10(model: Model, rep: Report):
                     continue
                 prm = [p for p in g.param_names if p != g.self_name]
                 from ..alias import _bindings
-                for n in ast.walk(g.node):
-                    if not (isinstance(n, ast.Subscript) and isinstance(n.slice, ast.Name) and n.slice.id in prm):
-                        continue
-                    base = n.value
-                    if isinstance(base, ast.Name):
-                        bs = _bindings(g.node, base.id)
-                        if len(bs) == 1 and bs[0] is not None:
-                            base = bs[0]
-                    if isinstance(base, ast.Attribute) and isinstance(base.value, ast.Name) and base.value.id == g.self_name:
-                        indexed.add(canon(g.cls, base.attr))
+                from ..model import is_helper_name
+
+                def scan(h, index_params, depth=0):
+                    for n in ast.walk(h.node):
+                        if isinstance(n, ast.Subscript) and isinstance(n.slice, ast.Name) and n.slice.id in index_params:
+                            base = n.value
+                            if isinstance(base, ast.Name):
+                                bs = _bindings(h.node, base.id)
+                                if len(bs) == 1 and bs[0] is not None:
+                                    base = bs[0]
+                            if isinstance(base, ast.Attribute) and isinstance(base.value, ast.Name) and base.value.id == h.self_name:
+                                indexed.add(canon(h.cls, base.attr))
+                        # the lookup moved into a helper of the class: follow the index argument
+                        if depth < 2 and isinstance(n, ast.Call) and isinstance(n.func, ast.Attribute) and isinstance(n.func.value, ast.Name) and n.func.value.id == h.self_name \
+                                and is_helper_name(n.func.attr):
+                            for hh in sub.resolve_all(n.func.attr):
+                                hp = [q for q in hh.param_names if q != hh.self_name]
+                                passed = []
+                                for i_, a_ in enumerate(n.args):
+                                    if isinstance(a_, ast.Name) and a_.id in index_params and i_ < len(hp):
+                                        passed.append(hp[i_])
+                                for k_ in n.keywords:
+                                    if isinstance(k_.value, ast.Name) and k_.value.id in index_params and k_.arg in hp:
+                                        passed.append(k_.arg)
+                                if passed:
+                                    scan(hh, passed, depth + 1)
+                scan(g, prm)
         if not indexed:
             raise AnalysisError(f"{K.name}: no positional accessor subscripts a layer list (shape not recognised)")
         rep.check(ok and indexed == {cont}, "C17.Y10", f.qualname, f.loc, found=show(v) if v is not None else "no single value", required=f"len(self.{sorted(indexed)[0]})",
